@@ -29,6 +29,7 @@ def main():
     tier = 'quick'
     only = None
     seeded = False
+    refactorings = False
     props = []
     while args:
         a = args.pop(0)
@@ -38,6 +39,8 @@ def main():
             only = args.pop(0)
         elif a == '--seeded':
             seeded = True
+        elif a == '--refactorings':
+            refactorings = True
         else:
             props.append(a.upper())
     scratch = tempfile.mkdtemp(prefix='exactly-mut-')
@@ -57,8 +60,10 @@ def main():
                 jobs.append({'id': d, 'property': meta['property'], 'patch': os.path.join(sd, d, 'patch.diff'),
                              'checks': meta.get('checks') or [meta['property']]})
         else:
-            jobs = [m for m in json.load(open(os.path.join(VERIF, 'selftest', 'mutants.json')))
-                    if (not props or m['property'] in props) and (not only or m['id'] == only)]
+            src = 'refactorings.json' if refactorings else 'mutants.json'
+            jobs = [m for m in json.load(open(os.path.join(VERIF, 'selftest', src)))
+                    if (not props or m['property'] in props or set(m.get('checks', [])) & set(props))
+                    and (not only or m['id'] == only)]
         for m in jobs:
             if os.path.exists(os.path.join(copy, 'src')):
                 shutil.rmtree(os.path.join(copy, 'src'))
@@ -92,16 +97,19 @@ def main():
                 verdicts.append((prop, code, rules, out))
             caught = [v for v in verdicts if v[1] == 1]
             status = 'CAUGHT' if caught else ('HARNESS' if any(v[1] == 3 for v in verdicts) else 'SURVIVED')
+            if m.get('expect') == 'green':
+                # a behaviour-preserving refactoring: every listed check must stay green (no false alarm)
+                status = 'GREEN' if all(v[1] == 0 for v in verdicts) else 'FALSE-ALARM'
             detail = '; '.join('%s exit=%d rules=%s' % (v[0], v[1], ','.join(v[2])) for v in verdicts)
             results.append((m['id'], m['property'], status, detail))
             print('%-9s %-4s %-40s %s' % (status, m['property'], m['id'], detail), flush=True)
-            if status != 'CAUGHT':
+            if status not in ('CAUGHT', 'GREEN'):
                 print('    ' + '\n    '.join(verdicts[0][3].strip().split('\n')[-8:]))
     finally:
         shutil.rmtree(scratch, ignore_errors=True)
     n = len(results)
-    c = sum(1 for r in results if r[2] == 'CAUGHT')
-    print('caught %d of %d' % (c, n))
+    c = sum(1 for r in results if r[2] in ('CAUGHT', 'GREEN'))
+    print('caught / green %d of %d' % (c, n))
     sys.exit(0 if c == n else 1)
 
 
